@@ -143,6 +143,16 @@ pub fn finish(report: Report) -> i32 {
 
 /// Re-runs the explicit scenarios of a candidate in fresh processes; true iff it fails the same way.
 pub fn confirm_hashsim(v: &Value) -> Result<bool, String> {
+    if v["class"].as_str() == Some("history-dependent") {
+        let Some(h) = v.get("history") else { return Ok(false) };
+        let with = proc::call_env(
+            &["worker", "hashsim"],
+            &h["worker_input"],
+            &[("VERIF_STOP_AT", h["stop_at"].as_str().unwrap_or("").to_string()), ("VERIF_KEEP", h["keep"].as_str().unwrap_or("").to_string())],
+        )?;
+        let alone = proc::call(&["single", "hashsim"], &v["runs"][0])?;
+        return Ok(with["canon"] != alone["canon"]);
+    }
     let runs = v["runs"].as_array().ok_or("no runs")?;
     let mut outs = Vec::new();
     for r in runs {
@@ -154,6 +164,65 @@ pub fn confirm_hashsim(v: &Value) -> Result<bool, String> {
     } else {
         Ok(outs[0]["direct"].as_array().map_or(false, |d| d.iter().any(|x| x[0].as_str() == Some(class))))
     }
+}
+
+/// A candidate whose two outcomes agree when each run is executed alone in a fresh process: the
+/// difference must come from what the worker process had executed before. Finds which of the two
+/// in-batch outcomes deviates from the isolated one, re-creates the worker's run history up to it
+/// and minimises that history (ddmin; every trial is a fresh process).
+fn history_search(c: &Value, property: &str, tier: &str, seed: u64, n_subjects: usize, k: usize) -> Result<Option<Value>, String> {
+    let at = &c["at"];
+    if at.is_null() {
+        return Ok(None);
+    }
+    let boot = c["runs"][0]["boot_seed"].as_u64().ok_or("no boot seed")?;
+    let idx = at["idx"].as_u64().unwrap() as usize;
+    let (shard, shards) = (at["shard"].as_u64().unwrap() as usize, at["shards"].as_u64().unwrap() as usize);
+    let plan = hashsim::plan(property, tier, seed);
+    for which in [1usize, 0] {
+        let kk = at["k"][which].as_u64().unwrap() as usize;
+        let repeat = at["repeat"][which].as_bool().unwrap_or(false);
+        let in_batch = at["canons"][which].clone();
+        let alone_sc = json!({"sim": "hashsim", "boot_seed": boot, "subject": plan.subjects[idx].to_json(), "key_seed": hashsim::key_seed(seed, idx, kk), "prefix": hashsim::prefix_for(&plan, seed, idx, kk)});
+        let alone = proc::call(&["single", "hashsim"], &alone_sc)?;
+        if alone["canon"] == in_batch {
+            continue;
+        }
+        let _ = (n_subjects, k);
+        // the worker itself, restricted to a set of earlier subjects and stopped at the target run,
+        // is the replay: same code path, hence the same allocation and hashing history
+        let history: Vec<usize> = (0..idx).filter(|i| i % shards == shard).collect();
+        let worker_input = c["worker_input"].clone();
+        if worker_input.is_null() {
+            continue;
+        }
+        let stop = format!("{idx},{kk},{}", repeat as u8);
+        let keep_str = |keep: &[usize]| keep.iter().map(|i| i.to_string()).collect::<Vec<_>>().join(",");
+        let mk = |keep: &[usize]| json!({"sim": "hashsim", "mode": "history", "worker_input": worker_input, "stop_at": stop, "keep": keep_str(keep)});
+        let fails = |keep: &[usize]| {
+            proc::call_env(&["worker", "hashsim"], &worker_input, &[("VERIF_STOP_AT", stop.clone()), ("VERIF_KEEP", keep_str(keep))])
+                .map(|o| !o["canon"].is_null() && o["canon"] != alone["canon"])
+                .unwrap_or(false)
+        };
+        if !fails(&history) {
+            continue;
+        }
+        let min = crate::ddmin::ddmin(&history, |h| fails(h));
+        let min: Vec<usize> = if fails(&[]) { vec![] } else { min };
+        let mut out = c.clone();
+        out["class"] = json!("history-dependent");
+        out["history"] = mk(&min);
+        out["runs"] = json!([alone_sc]);
+        out["history_programs"] = json!(min.iter().map(|i| plan.subjects[*i].to_json()).collect::<Vec<_>>());
+        out["detail"] = json!(format!(
+            "after the {} earlier program(s) listed in history_programs ran in the same process the outcome is {:.300} but alone in a fresh process it is {:.300}",
+            min.len(),
+            in_batch.as_str().unwrap_or(""),
+            alone["canon"].as_str().unwrap_or("")
+        ));
+        return Ok(Some(out));
+    }
+    Ok(None)
 }
 
 pub fn check_hashsim(property: &str, tier: &str) -> i32 {
@@ -201,7 +270,8 @@ pub fn check_hashsim(property: &str, tier: &str) -> i32 {
                 for h in v["harness_errors"].as_array().cloned().unwrap_or_default() {
                     harness_errors.push(h);
                 }
-                for c in v["violations"].as_array().cloned().unwrap_or_default() {
+                for mut c in v["violations"].as_array().cloned().unwrap_or_default() {
+                    c["worker_input"] = v["input"].clone();
                     candidates.push(c);
                 }
                 for s in v["subjects"].as_array().cloned().unwrap_or_default() {
@@ -258,23 +328,48 @@ pub fn check_hashsim(property: &str, tier: &str) -> i32 {
     let mut confirmed = Vec::new();
     let mut seen_subjects = BTreeSet::new();
     let mut unconfirmed = 0;
+    let mut history_searches = 0;
+    let mut skipped_history = 0;
     for c in candidates {
         let sid = format!("{}|{}", c["subject_id"].as_str().unwrap_or(""), c["class"].as_str().unwrap_or(""));
         if !seen_subjects.insert(sid) {
             continue;
         }
-        if confirmed.len() >= 40 {
-            break;
+        if confirmed.len() >= 40 || (c["class"].as_str() == Some("history-dependent") && confirmed.iter().filter(|x: &&Value| x["class"].as_str() == Some("history-dependent")).count() >= 2) {
+            continue;
         }
-        match confirm_hashsim(&c) {
+        let plain = if c["class"].as_str() == Some("history-dependent") { Ok(false) } else { confirm_hashsim(&c) };
+        match plain {
             Ok(true) => {
                 let mut c = c;
                 c["sim"] = json!("hashsim");
                 confirmed.push(c);
             }
             Ok(false) => {
-                unconfirmed += 1;
-                harness_errors.push(json!({"what": "candidate did not reproduce in fresh processes", "candidate": c}));
+                // not reproducible from hash keys alone: look for the cause in the process history
+                // (a handful of searches is enough to report the defect; each costs many processes)
+                if history_searches >= 3 {
+                    skipped_history += 1;
+                    continue;
+                }
+                history_searches += 1;
+                match history_search(&c, property, tier, seed, n_subjects as usize, k as usize) {
+                    Ok(Some(mut h)) => {
+                        h["sim"] = json!("hashsim");
+                        match confirm_hashsim(&h) {
+                            Ok(true) => confirmed.push(h),
+                            _ => {
+                                unconfirmed += 1;
+                                harness_errors.push(json!({"what": "history candidate did not reproduce", "candidate": h}));
+                            }
+                        }
+                    }
+                    Ok(None) => {
+                        unconfirmed += 1;
+                        harness_errors.push(json!({"what": "candidate did not reproduce in fresh processes", "candidate": c}));
+                    }
+                    Err(e) => harness_errors.push(json!({"what": "history search failed", "error": e})),
+                }
             }
             Err(e) => harness_errors.push(json!({"what": "replay failed", "error": e})),
         }
@@ -320,7 +415,9 @@ pub fn check_hashsim(property: &str, tier: &str) -> i32 {
         "roundtrip_types_two_or_more_orders_seen": rt_full,
         "types_with_single_observed_order_despite_several_attainable": below_attainable,
         "unconfirmed_candidates": unconfirmed,
-        "real_vs_stub": {"real": ["pest grammar+parser", "checker", "recreate/folding", "exec", "Type/MultiType/StructType Hash+Eq", "std HashMap/HashSet SipHash"], "stub": ["getrandom (hash keys) served by the simulator", "stdout captured", "std::fs -> in-memory (unused by these subjects)"]},
+        "history_searches": history_searches,
+        "candidates_not_searched_after_three_history_searches": skipped_history,
+        "real_vs_stub": {"real": ["pest grammar+parser", "checker", "recreate/folding", "exec", "Type/MultiType/StructType Hash+Eq", "std HashMap/HashSet SipHash"], "stub": ["getrandom (hash keys) served by the simulator", "global allocator: deterministic size-class allocator at a fixed address (address reuse is a function of the alloc/free sequence)", "stdout captured", "std::fs -> in-memory (unused by these subjects)"]},
         "exhaustive": false,
     });
     finish(Report {
